@@ -28,10 +28,10 @@ ASSUMPTIONS = (
     'stdlib dispatch(conn, None, name, args) delivers one request to the server, which runs Server.<name>(conn, *args) once',
     'CPython drops an object when its last reference goes (the hosted MemoryBlock is referenced only by id_to_obj and by in-flight method calls)',
     'a pickle is unpickled at most once ("deserialize it once" in the property); a pickle that is never unpickled keeps the object alive (by design: the count taken in __reduce__ is never given back)',
-    'sequential contract: no other thread touches the same ident between the steps of Server.create (mutex released before _make_proxy increments)',
+    'rely of the interference variants: other server threads preserve G (a counted object is registered) and give back only references of their own (each proved for its own function: units Server.create/incref/decref)',
 )
 NOT_DECIDED = ('a proxy pickled and never unpickled (leak by design, outside the property\'s "deserialize it once")', 'abrupt death of a client process (its finalizers never run: stdlib behaviour)',
-               'interleaving of Server.create for an already hosted object with a concurrent last decref of it (history-level race; bounded battery only)')
+               )
 
 
 def ev(s, *what):
@@ -47,7 +47,10 @@ class ServerCreate(Unit):
     with_callable = False
     nargs = 1
     unreachable_ok = ('raise TypeError(', 'exposed = list(exposed) + list(method_to_typeid)', 'if not isinstance(method_to_typeid, dict)')
-    canaries = (('re-wrapping a hosted value resets its reference count', "            if ident not in self.id_to_refcount:\n                self.id_to_refcount[ident] = 0", "            self.id_to_refcount[ident] = 0", 'plus one'),
+    numeric_vals_are_ints = True
+    interference = False
+    canaries = (('re-wrapping a hosted value resets its reference count', "self.id_to_refcount[ident] = self.id_to_refcount.get(ident, 0) + 1", "self.id_to_refcount[ident] = 1", 'plus one'),
+                ('the reservation is never given back', "        finally:\n            self.decref(c, ident)", "        finally:\n            pass", 'plus one'),
                 ('a copy is hosted instead of the value itself', 'obj = args[0]', 'obj = list(args[0])', ''),
                 ('object registered under the id of the argument tuple', "ident = '%x' % id(obj)", "ident = '%x' % id(args)", ''))
 
@@ -78,16 +81,38 @@ class ServerCreate(Unit):
                 return [('ok', s, PyTuple([Fn(ctor) if unit.with_callable else NONE, NONE, getattr(unit, 'mtt', NONE), unit.proxytype]))]
 
         def make_proxy(e, s, a, k, n):
-            # contract of Server._make_proxy + BaseProxy.__init__ + _incref (units below): one proxy for this ident, one incref
+            # contract of Server._make_proxy + BaseProxy.__init__ + _incref (units below): one proxy for this ident, one incref (in its own critical section)
             s = s.fork()
             ident = box(e, a[2])
-            e.oblige(s, f'line {n.lineno}: the proxy is made outside the mutex (its constructor takes the mutex to increment) and after the object is registered',
-                     z3.And(unit.mutex.held(s) == 0, z3.Select(unit.objs.arr(s), ident) != Absent, z3.Select(unit.rc.arr(s), ident) != Absent))
+            e.oblige(s, f'line {n.lineno}: the proxy is made outside the mutex (its constructor takes the mutex to increment)', unit.mutex.held(s) == 0)
+            unit.apply_interference(s)
+            e.oblige(s, f'line {n.lineno}: when the new proxy increments, the object is still registered and counted -- whatever other threads did since the mutex was released (it is held by this call\'s own reservation)',
+                     z3.And(z3.Select(unit.objs.arr(s), ident) != Absent, z3.Select(unit.rc.arr(s), ident) != Absent))
             cur = z3.Select(unit.rc.arr(s), ident)
             unit.rc.set(s, 'arr', z3.Store(unit.rc.arr(s), ident, V.intv(V.ival(cur) + 1)))
+            s.ghost['own'] = s.ghost['own'] + 1
             ev(s, 'make_proxy', box(e, a[0]), box(e, a[1]), ident, box(e, a[3]))
-            return [('ok', s, proxy_of(box(e, a[0]), ident))]
-        me = Rec(ex, 'self', immutable=True, methods={'_make_proxy': Fn(make_proxy)})
+            exc = fresh('proxy_ctor_exc')
+            s2 = s.fork().assume(V.isinst(exc, 'Exception'), *V.cls_facts(exc))       # the proxy type's constructor may fail: then no reference was taken
+            s2.ghost['own'] = s2.ghost['own'] - 1
+            unit.rc.set(s2, 'arr', z3.Store(unit.rc.arr(s2), ident, cur))
+            return [('ok', s, proxy_of(box(e, a[0]), ident)), ('raise', s2, exc)]
+
+        def decref(e, s, a, k, n):
+            # contract of Server.decref (unit below): one decrement; at 0 count and registration go together
+            s = s.fork()
+            ident = box(e, a[1])
+            e.oblige(s, f'line {n.lineno}: the reservation is given back outside the mutex', unit.mutex.held(s) == 0)
+            unit.apply_interference(s)
+            cur = z3.Select(unit.rc.arr(s), ident)
+            e.oblige(s, f'line {n.lineno}: the reservation being given back is still counted', z3.And(cur != Absent, V.ival(cur) >= 1, s.ghost['own'] >= 1))
+            last = V.ival(cur) == 1
+            unit.rc.set(s, 'arr', z3.If(last, z3.Store(unit.rc.arr(s), ident, Absent), z3.Store(unit.rc.arr(s), ident, V.intv(V.ival(cur) - 1))))
+            unit.objs.set(s, 'arr', z3.If(last, z3.Store(unit.objs.arr(s), ident, Absent), unit.objs.arr(s)))
+            s.ghost['own'] = s.ghost['own'] - 1
+            ev(s, 'decref', ident)
+            return [('ok', s, NONE)]
+        me = Rec(ex, 'self', immutable=True, methods={'_make_proxy': Fn(make_proxy), 'decref': Fn(decref)})
         me.init(st, mutex=self.mutex, registry=Registry(ex, 'registry'), id_to_obj=self.objs, id_to_refcount=self.rc)
         st.env.update(self=me, c=z3.Const('c', Val), typeid=self.typeid, args=PyTuple([self.arg] + [z3.Const(f'arg{i}', Val) for i in range(1, self.nargs)]), kwds=DictVal())
         ex.globals['public_methods'] = Fn(lambda e, s, a, k, n: [('ok', s, public_methods(box(e, a[0])))])
@@ -96,11 +121,46 @@ class ServerCreate(Unit):
         # refcounts are ints; a hosted ident has an entry in both maps or (transiently, inside stdlib decref) none -- precondition: both or none
         i0 = hexid(self.arg if not self.with_callable else self.made)
         r0 = z3.Select(self.rc0, i0)
-        st.assume(z3.Or(r0 == Absent, z3.And(V.is_intv(r0), V.ival(r0) >= 0)), Absent != NONE, z3.Not(V.is_intv(Absent)), z3.Not(V.is_tup(Absent)))
+        st.assume(z3.Or(r0 == Absent, z3.And(V.is_intv(r0), V.ival(r0) >= 1)), Absent != NONE, z3.Not(V.is_intv(Absent)), z3.Not(V.is_tup(Absent)))     # a count that is present is >= 1
+        st.assume(z3.Implies(r0 != Absent, z3.Select(self.objs0, i0) != Absent))       # G holds on entry
+        st.ghost['own'] = z3.IntVal(0)          # references to the object held by THIS call (reservation, then the new proxy)
+        self.i0 = i0
+        self.c = st.env['c']
         return st
 
+    # ---- interference (only in the `under interference` variant): other server threads run whenever the mutex is free.  Rely: they preserve
+    # G (a counted object is registered) and give back only references of their own -- so while this call holds `own` >= 1 references, the
+    # count stays >= own and the registration stays.
+    def apply_interference(self, st):
+        if not self.interference:
+            return
+        own = st.ghost['own']
+        old_entry = z3.Select(self.objs.arr(st), self.i0)
+        self.rc.set(st, 'arr', fresh('refcount_interf', z3.ArraySort(Val, Val)))
+        self.objs.set(st, 'arr', fresh('id_to_obj_interf', z3.ArraySort(Val, Val)))
+        r = z3.Select(self.rc.arr(st), self.i0)
+        st.assume(z3.Or(r == Absent, z3.And(V.is_intv(r), V.ival(r) >= 1)),
+                  z3.Implies(r != Absent, z3.Select(self.objs.arr(st), self.i0) != Absent),                 # G
+                  z3.Implies(own >= 1, z3.And(r != Absent, V.ival(r) >= own, z3.Select(self.objs.arr(st), self.i0) == old_entry)))
+
     def interfere(self, ex, st, m, node):
-        pass
+        if self.interference and not z3.is_true(z3.simplify(self.mutex.held(st) > 0)):
+            self.apply_interference(st)
+
+    def on_acquire(self, ex, st, lock, node):
+        self.apply_interference(st)
+        st.ghost['#rc_at_acquire'] = self.rc.arr(st)
+
+    def on_release(self, ex, st, lock, node):
+        r = z3.Select(self.rc.arr(st), self.i0)
+        ex.oblige(st, f'line {node.lineno}: invariant G when the mutex is released: a counted object is registered', z3.Implies(r != Absent, z3.Select(self.objs.arr(st), self.i0) != Absent))
+
+    def after_map_write(self, ex, st, m, kind, k, v, node):
+        ex.oblige(st, f'line {node.lineno}: both server maps are written under the mutex', self.mutex.held(st) > 0)
+        if m is self.rc and kind == 'set':
+            # the reservation: this call now holds (new count) - (count when the mutex was taken; 0 if absent) references
+            old = z3.Select(st.ghost['#rc_at_acquire'], k)
+            st.ghost['own'] = st.ghost['own'] + V.ival(v) - z3.If(old == Absent, 0, V.ival(old))
 
     def on_binop(self, ex, st, op, a, b, node):
         if isinstance(op, ast.Mod) and z3.is_string_value(a) and a.as_string() == '%x':
@@ -125,10 +185,29 @@ class ServerCreate(Unit):
                                  z3.Select(self.rc.arr(s), ident) == V.intv(z3.If(old == Absent, 0, V.ival(old)) + 1),
                                  z3.Implies(other != ident, z3.And(z3.Select(self.rc.arr(s), other) == z3.Select(self.rc0, other), z3.Select(self.objs.arr(s), other) == z3.Select(self.objs0, other))),
                                  z3.BoolVal(len(mk) == 1), (z3.And(mk[0][1] == self.typeid, mk[0][2] == self.proxytype, mk[0][3] == ident, box(ex, p) == proxy_of(self.typeid, ident)) if len(mk) == 1 else z3.BoolVal(False)),
-                                 self.mutex.held(s) == 0))
+                                 self.mutex.held(s) == 0, s.ghost['own'] == 1))
             else:
-                ex.oblige(s, 'exit(raise): nothing was registered and no count changed (the callable failed / bad arguments); mutex released',
-                          z3.And(z3.Select(self.rc.arr(s), other) == z3.Select(self.rc0, other), z3.Select(self.objs.arr(s), other) == z3.Select(self.objs0, other), self.mutex.held(s) == 0))
+                ex.oblige(s, 'exit(raise): no count changed for good (the callable / the proxy constructor failed, or bad arguments): this call holds no reference, every other ident untouched; mutex released',
+                          z3.And(z3.Implies(other != ident, z3.And(z3.Select(self.rc.arr(s), other) == z3.Select(self.rc0, other), z3.Select(self.objs.arr(s), other) == z3.Select(self.objs0, other))),
+                                 self.mutex.held(s) == 0, s.ghost['own'] == 0, z3.Select(self.rc.arr(s), ident) == z3.Select(self.rc0, ident)))
+
+
+class ServerCreateInterference(ServerCreate):
+    """The same function with other server threads running whenever the mutex is free (last decref of the same value included)."""
+    variant = 'no callable, under interference'
+    interference = True
+    canaries = (('no reservation: the count is only initialised', "self.id_to_refcount[ident] = self.id_to_refcount.get(ident, 0) + 1", "self.id_to_refcount[ident] = self.id_to_refcount.get(ident, 0)", 'still registered and counted'),)
+
+    def post(self, ex, outs):
+        obj = self.arg
+        ident = hexid(obj)
+        for k, s, p in outs:
+            r = z3.Select(self.rc.arr(s), ident)
+            if k in ('normal', 'return'):
+                ex.oblige(s, 'exit: this call ends holding exactly one reference (the returned proxy\'s); the object is registered and counted, whatever other threads did meanwhile',
+                          z3.And(s.ghost['own'] == 1, r != Absent, V.ival(r) >= 1, z3.Select(self.objs.arr(s), ident) != Absent, self.mutex.held(s) == 0))
+            else:
+                ex.oblige(s, 'exit(raise): this call holds no reference; mutex released', z3.And(s.ghost['own'] == 0, self.mutex.held(s) == 0))
 
 
 class ServerCreateBadArgs(ServerCreate):
@@ -146,15 +225,9 @@ class ServerCreateTyped(ServerCreate):
     def setup(self, ex):
         st = super().setup(ex)
         st.assume(V.isinst(self.mtt, 'dict'), self.mtt != NONE)
-        lst = z3.Function('list', Val, Val)
+        lst = z3.Function('list_elems', Val, V.SeqV)       # list(x): a z3 sequence, so that `+` is concatenation
         ex.globals['list'] = Fn(lambda e, s, a, k, n: [('ok', s, lst(box(e, a[0])))])
         return st
-
-    def on_binop(self, ex, st, op, a, b, node):
-        r = super().on_binop(ex, st, op, a, b, node)
-        if r is None and isinstance(op, ast.Add):
-            return [('ok', st, z3.Function('list_concat', Val, Val, Val)(box(ex, a), box(ex, b)))]
-        return r
 
 
 class ServerCreateCallable(ServerCreate):
@@ -927,8 +1000,8 @@ class C13Lemma(LemmaUnit):
         yield ('a decrement by a live reference never finds the count at 0 (stdlib decref would raise)', base + [z3.Or(live >= 1, transit >= 1)], rc >= 1)
 
 
-UNITS = [ServerCreate, ServerCreateBadArgs, ServerCreateTyped, ServerCreateCallable, MakeProxy, MakeProxyAuto, MakeProxyMemory, ServerIncref, ServerDecref, ProxyInit, ProxyIncref, ProxyIncrefInServer, ProxyDispatch,
+UNITS = [ServerCreate, ServerCreateInterference, ServerCreateBadArgs, ServerCreateTyped, ServerCreateCallable, MakeProxy, MakeProxyAuto, MakeProxyMemory, ServerIncref, ServerDecref, ProxyInit, ProxyIncref, ProxyIncrefInServer, ProxyDispatch,
          ProxyDecref, ProxyDecrefInServer, ProxyReduce, ProxyReduceInServer, Rebuild, RebuildInServer, Managed, ManagedOutside, MemRelease, MemInit, MemDel, C13Lemma]
-SCENARIOS = [('Server.decref', 'replay/scenarios/c13_rewrap_vs_last_decref.py'), ('', 'replay/scenarios/c13_refcount_histories.py', [1, 2, 3, 4, 5, 6])]
+SCENARIOS = [('Server.', 'replay/scenarios/c13_rewrap_vs_last_decref.py'), ('', 'replay/scenarios/c13_refcount_histories.py', [1, 2, 3, 4, 5, 6])]
 BOUNDED = [{'function': 'whole histories across processes (create/pickle/unpickle/child/store/remove/managed/delete)', 'method': 'runtime scenario replay/scenarios/c13_refcount_histories.py against a reference-count model', 'bound': '6 seeds x 45 steps (thorough tier and fallback)', 'counted_as_proved': False}]
 THOROUGH_SCENARIOS = [('', 'replay/scenarios/c13_refcount_histories.py', list(range(7, 31)), 600)]
